@@ -10,6 +10,9 @@ TUS = ['src/threading/ThreadPool.cpp', 'src/threading/Thread.cpp', 'witness/w_th
 TP = 'tulz::ThreadPool'
 
 
+INTEGRAL_T = {'int', 'unsigned int', 'long', 'unsigned long', 'size_t', 'std::size_t', 'short', 'unsigned short', 'long long', 'unsigned long long', 'unsigned', 'ssize_t', 'uint32_t', 'uint64_t', 'int32_t', 'int64_t'}
+
+
 class TPDomain(EvDomain):
     loop_unroll = 1
     max_depth = 8
@@ -17,8 +20,11 @@ class TPDomain(EvDomain):
     def __init__(self, oracle=None):
         super().__init__(oracle=oracle)
 
+    fields = None         # extra pool fields with a known value on entry (restart-state rows): name -> value
+
     def field_value(self, path, node):
         last = path[-1]
+        if self.fields and last in self.fields: return self.fields[last]
         if last == 'm_isRunning':
             v = self.atom('running'); return v if v is not None else Unknown('m_isRunning')
         if last == 'm_maxThreadCount': return Lin.sym('max')
@@ -26,6 +32,13 @@ class TPDomain(EvDomain):
         return None
 
     def call_result(self, ex, n, q, base, on, ov, vals, st, fr):
+        if base in ('size', 'empty') and on == 'm_queue' and self.atom('queue0_empty') is True:
+            # the queue was empty on entry: it holds what this path has appended (removals end the knowledge)
+            evq = [p_ for k_, _, p_ in st.events if k_ == 'ev' and p_.kind == 'call' and p_.obj == 'm_queue' and p_.node is not n]
+            names = [e_.name.split('::')[-1] for e_ in evq]
+            if all(b_ in ('emplace_back', 'push_back', 'emplace_front', 'push_front', 'size', 'empty', 'begin', 'end', 'back', 'front') for b_ in names):
+                cnt = sum(1 for b_ in names if b_ in ('emplace_back', 'push_back', 'emplace_front', 'push_front'))
+                return Lin.const(cnt) if base == 'size' else (cnt == 0)
         if base == 'size' and on == 'm_pool': return Lin.const(0) if self.atom('pool_empty') is True else Lin.sym('poolsize')
         if base == 'empty' and on == 'm_pool' and self.atom('pool_empty') is not None: return self.atom('pool_empty')
         if base in ('operator==', 'operator!=') and self.atom('pool_empty') is True:
@@ -222,6 +235,7 @@ class TPAnalysis:
             if k in seen: return
             seen.add(k); self.add(rule, ok, inst, site_, why)
         n_take = n_wait = 0
+        self._exit_effects(res)
         for P, E in res:
             A = P.assumed
             for i, e in enumerate(E):
@@ -337,6 +351,66 @@ class TPAnalysis:
                 okf = bool(fin) and bool(runs) and B.index(fin[0]) > B.index(runs[0])
                 self.add('TP.1', okf, 'thread body: the finished flag is set after run() returned', fin[0].site if fin else clo.fn.shortloc(), '' if okf else 'finished flag missing or set before the task ran (update() would reap a running worker)')
 
+    def _exit_effects(self, res):
+        """net effect of one worker, from thread start to thread end, on every integral / bool field of the pool the rules do not
+        model themselves: {field: {'stop': set of effects, 'expiry': …, 'loop': …}}; an effect is ('add', d) | ('set', const) | None"""
+        c = self.facts.cls(TP) or {'fields': []}
+        known = {'m_pool', 'm_queue', 'm_condition', 'm_isRunning', 'm_poolMutex', 'm_queueMutex', 'm_maxThreadCount', 'm_expiryTimeout'}
+        self.extra = {f_['name']: f_ for f_ in c['fields'] if f_['name'] not in known and not f_.get('isptr') and ((f_.get('ctype') or '') in INTEGRAL_T or (f_.get('ctype') or '') == 'bool' or f_.get('atomic'))}
+        self.effects = {x: {'stop': set(), 'expiry': set(), 'loop': set()} for x in self.extra}
+        self.effect_site = {}
+        for P, E in res:
+            if P.end not in ('exit', 'return', 'loop'): continue
+            A = P.assumed
+            phs = [int(k_[8:]) for k_ in A if isinstance(k_, str) and k_.startswith('running@') and k_[8:].isdigit()]
+            why = 'loop' if P.end == 'loop' else ('stop' if phs and A.get(f'running@{max(phs)}') is False else 'expiry')
+            for x in self.extra:
+                ws = [e for e in E if e.kind == 'write' and e.obj == x]
+                if not ws: eff = ('add', 0)
+                else:
+                    v = ws[-1].val; lv = as_lin(v) if isinstance(v, (Lin, int, bool)) else None
+                    if lv is not None and lv.is_const(): eff = ('set', lv.c)
+                    elif lv is not None and lv.t == {x: 1}: eff = ('add', lv.c)
+                    else: eff = None
+                    if why != 'loop' and eff not in (('add', 0),) and (x, why) not in self.effect_site:
+                        rets = [e for e in E if e.kind == 'return']
+                        self.effect_site[(x, why)] = (ws[-1].site, rets[-1].site if rets else '')
+                self.effects[x][why].add(eff)
+
+    def _restart_rows(self):
+        """[(row text, atoms, field values)] for the states in which the pool has no worker: freshly constructed, every worker
+        expired, and after stop() (all workers left through the stop exit; clear() emptied the queue)"""
+        rows = []
+        init = {}
+        ct = [g for g in self.facts.fns if g.d.get('class') == TP and g.d.get('ctor') and not g.d.get('copy') and not g.d.get('move')]
+        for g in ct[:1]:
+            for P, E in run_paths(self.facts, g, TPDomain({})):
+                for e in E:
+                    if e.kind == 'write' and e.obj in self.extra:
+                        lv = as_lin(e.val) if isinstance(e.val, (Lin, int, bool)) else None
+                        init[e.obj] = lv if lv is not None and lv.is_const() else None
+        def after(why, k):
+            vals = {}; notes = []
+            for x in self.extra:
+                effs = self.effects[x][why] | (self.effects[x]['loop'] - {('add', 0)})
+                i0 = init.get(x)
+                if effs <= {('add', 0)}: v = i0
+                elif len(effs) == 1 and None not in effs:
+                    kind, d = next(iter(effs))
+                    v = Lin.const(d) if kind == 'set' else (i0 + Lin.const(d * k) if i0 is not None else None)
+                    if v is not None and (i0 is None or v != i0): notes.append((x, why, v))
+                else: v = None
+                if v is not None: vals[x] = v
+            return vals, notes
+        fresh, _ = after('loop', 0)
+        fresh = {x: v for x, v in ((x, init.get(x)) for x in self.extra) if v is not None}
+        rows.append(('a freshly constructed pool', dict(running=True), fresh, []))
+        v, notes = after('expiry', 1)
+        if notes: rows.append(('after the only worker expired', dict(running=True), v, notes))
+        v, notes = after('stop', 1)
+        rows.append(('after start(); stop()', dict(running=False), v, notes))
+        return rows
+
     # ---- start(): TP.3 (insert end), TP.5, TP.8, TP.10 -----------------------------------------------------------------------
     def start(self):
         f = self.fn.get('start')
@@ -383,21 +457,25 @@ class TPAnalysis:
                 notif = [e for e in E if e.kind in ('notify_one', 'notify_all')]
                 okn = bool(notif) and bool(enq) and E.index(notif[-1]) > E.index(enq[0])
                 self.add('TP.5', okn, f'row {row}: a worker is notified after the task is queued', notif[-1].site if notif else site, '' if okn else 'no notification after the insertion: an idle worker never sees the task')
-        # TP.8b: with no worker at all (a fresh pool, or the first start() after stop() emptied m_pool) the submitted task can only be
-        # run by a worker this call creates
-        for neg, running in itertools.product([False, True], [True, False]):
-            sgn = '<' if neg else '>'
-            dom = TPDomain(dict(pool_empty=True, max_vs_size=sgn, max_sign=sgn, running=running))
-            row = f'(|pool| = 0, max {"< 0" if neg else "> 0"}, flag={running})'
-            n += 1
-            for P, E in run_paths(self.facts, f, dom):
-                if P.end in ('throw', 'noreturn'): continue
-                th = evs(E, 'thread')
-                inst = f'row {row}: with an empty pool start() creates the worker that will run the task'
-                if th: self.add('TP.8', True, inst, th[0].site); continue
-                forks = [c for c, val, how in P.decisions if how == 'fork']
-                if forks: self.add('TP.8', None, inst, forks[0].shortloc(), f'this path creates no worker; it depends on `{forks[0].text()[:80]}`, whose value in a pool without workers is not followed')
-                else: self.add('TP.8', False, inst, site, f'no worker is created although the pool has none {row}: the task stays queued until some later start() happens to spawn one (after stop() the restart does nothing)', )
+        # TP.8b: with no worker at all (a fresh pool, every worker expired, or the first start() after stop() emptied m_pool) the submitted
+        # task can only be run by a worker this call creates.  The queue is empty in those states (a worker leaves only when stop() clears it
+        # or when it saw it empty); the other integral fields have the value the constructor / the leaving workers gave them.
+        for what, atoms, fields, notes in self._restart_rows():
+            for neg in (False, True):
+                sgn = '<' if neg else '>'
+                dom = TPDomain(dict(atoms, pool_empty=True, queue0_empty=True, max_vs_size=sgn, max_sign=sgn)); dom.fields = fields
+                row = f'({what}: |pool| = 0, queue empty, max {"< 0" if neg else "> 0"}, flag={atoms["running"]}' + ''.join(f', {x} = {v}' for x, v in sorted(fields.items())) + ')'
+                n += 1
+                for P, E in run_paths(self.facts, f, dom):
+                    if P.end in ('throw', 'noreturn'): continue
+                    th = evs(E, 'thread')
+                    inst = f'row {row}: with an empty pool start() creates the worker that will run the task'
+                    if th: self.add('TP.8', True, inst, th[0].site); continue
+                    forks = [c for c, val, how in P.decisions if how == 'fork']
+                    if forks: self.add('TP.8', None, inst, forks[0].shortloc(), f'this path creates no worker; it depends on `{forks[0].text()[:80]}`, whose value in a pool without workers is not followed')
+                    else:
+                        drift = '; '.join(f'{x} is {v} here because a worker that leaves through the {why} exit (return at {self.effect_site.get((x, why), ("", "?"))[1]}) leaves its last write at {self.effect_site.get((x, why), ("?", ""))[0]} in place' for x, why, v in notes)
+                        self.add('TP.8', False, inst, site, f'no worker is created although the pool has none {row}: the task stays queued until some later start() happens to spawn one' + (f' — {drift}' if drift else ''))
         self.n_start_rows = n
         # templated start: every instantiation allocates a TRunnable and hands it to start(Runnable*)
         inst = [g for g in self.facts.by_name_prefix(f'{TP}::start<')] if hasattr(self.facts, 'by_name_prefix') else [g for g in self.facts.fns if g.gname == f'{TP}::start' and g.d.get('instantiation')]
